@@ -7,6 +7,7 @@ import (
 
 var commands = map[string]func([]string){
 	"c05": runC05,
+	"c10": runC10,
 	"c11": runC11,
 	"c15": runC15,
 	"c17": runC17,
